@@ -135,6 +135,39 @@ CLAIMED["C08"] = ("proof",
     "Mid-frame close is outside the property.",
     "machine-checked proof in Coq + correspondence over real loopback TCP under chosen segmentations")
 
+CLAIMED["C05"] = ("proof",
+    "Gallina model of doAES256IGEencrypt/decrypt AS WRITTEN at register/alias level (scratch blocks, x/y holding references into caller memory, Go's bounds checks) and the textbook "
+    "IGE definition; theorems: the loops equal the definition for any number of blocks, decryption inverts encryption, the caller's input is never modified for every outcome, "
+    "lengths 0 / not a multiple of 16 are refused with both buffers untouched; Encrypt pads to the next multiple of 16; generateTempKeys equals the MTProto formula on the raw "
+    "32/16-byte nonces incl. leading zeros; the key-exchange wrapper recovers payloads of every length from a peer's ciphertext with any 0..15 aligning padding and from the client's "
+    "own output (explicit SHA-1 no-collision hypothesis on the payload and its <=15 padded extensions). Generic versions take the block cipher as Section variables; instances "
+    "with the Gallina AES (decrypts what it encrypts: proved, Prim/Aes256Inv.v) and SHA-1. Tied to the code through the verif export of the unexported loops, buffers compared "
+    "before/after.",
+    "DESIGN.md section 8 (C05)",
+    "Trusted: Coq kernel; extraction; harness with its independent textbook IGE and key formula. crypto/aes = Gallina AES is validated by FIPS-197 known answers and by the "
+    "correspondence, not proved. Modelling limits: in/out do not overlap; slice length = capacity.",
+    "machine-checked proof in Coq + byte-level correspondence")
+
+CLAIMED["C09"] = ("proof",
+    "The client as a labelled transition system in Gallina (Client/Model.v: callers with program counters, receive loop with container recursion and gzip, response and hint "
+    "tables, send lock, rendezvous channels, wire log): for EVERY label sequence (any number of callers, any interleaving, any server answer order / containers / gzip) each "
+    "completed call returned the value dispatched for its own, unique msg_id, which is the body of a frame the server injected; vector values only for calls that declared hints. "
+    "Tied to the code by trace validation: the real client built with -tags verif runs under a controlled scheduler (yield hooks at the model's step boundaries) against the "
+    "in-process reference server; every observed trace must be accepted by the extracted step with equal projections; direct oracles for wrong answers, process death, stalls.",
+    "DESIGN.md section 8 (C09-C11, C16)",
+    "Trusted: Coq kernel; extraction; harness (scheduler csched, refserver, trace recorder). Blocks between yield points are taken as atomic (shared state is only touched under "
+    "the send lock or through mutex-protected tables). Fairness and real time-outs assumed; the pinger and the 65 s read deadline are outside the histories.",
+    "machine-checked invariants in Coq over all interleavings + trace validation of the real client")
+
+CLAIMED["C10"] = ("proof",
+    "Same transition system: along the wire log msg_ids are multiples of 4 and strictly increasing in write order, content-related messages carry odd seq_no and pure acknowledgements "
+    "even ones, seq_no never decreases (below 2^30 messages), and every received content-related message, alone or inside a container, is followed by a msgs_ack naming it - as "
+    "invariants proved for one step and lifted over arbitrary label lists. Tied to the code as C09 (traces replayed through the extracted step; direct oracles for id order, "
+    "divisibility, clock window, parity, monotonicity, missing acks).",
+    "DESIGN.md section 8 (C09-C11, C16)",
+    "Trusted: as C09. 'Derived from the current time' is checked by the harness's clock-window oracle; in the model the clock reading is an arbitrary label parameter.",
+    "machine-checked invariants in Coq over all interleavings + trace validation of the real client")
+
 PENDING_REASON = "check not built yet in this round (machinery under construction; see DESIGN.md section 9 order of work)"
 
 
@@ -179,7 +212,7 @@ def main():
         json.dump(m, f, indent=1)
 
 
-HOOK_COMMITS = ["8cc65cc", "33a3c78", "794403c", "a317da0", "f05915b", "501c1c7"]
+HOOK_COMMITS = ["8cc65cc", "33a3c78", "794403c", "a317da0", "f05915b", "501c1c7", "51ccb51", "f886761", "ff3373d"]
 
 if __name__ == "__main__":
     main()
